@@ -425,7 +425,7 @@ class Ctx:
             for old in (BUILD / "replay").glob(f"{prop}_*.json"):
                 old.unlink()
         self.tier = tier if tier in ("quick", "thorough") else "quick"
-        self.seed = int(seed if seed is not None else os.environ.get("VERIF_SEED", "20260926"))
+        self.seed = int(seed if seed is not None else (os.environ.get("VERIF_SEED") or "20260926"))
         self.rng = random.Random(f"{prop}:{self.seed}")
         self.t0 = time.time()
         self.work = BUILD / prop
